@@ -204,6 +204,7 @@ static uint32_t g_woff[3];   /* pattern offset per stream written */
 static char g_echo[65536];
 static size_t g_echo_n, g_echo_off;
 static int g_echo_eof;
+static int g_echo_total; /* bytes echoed to stdout so far */
 
 static int set_nb(int fd, int on)
 {
@@ -312,10 +313,10 @@ static void step_echo(int probe)
     int e = errno;
     restore_fl(1, fl);
     if (w < 0 && e != EAGAIN) { reply(ST_ERR, e, NULL, 0); return; }
-    if (w > 0) { g_echo_off += (size_t) w; moved = 1; }
+    if (w > 0) { g_echo_off += (size_t) w; g_echo_total += (int) w; moved = 1; }
   }
-  if (g_echo_eof && g_echo_n == g_echo_off) reply(ST_EOF, 0, NULL, 0);
-  else reply(moved ? ST_PROGRESS : ST_BLOCKED, (int) (g_echo_n - g_echo_off), NULL, 0);
+  if (g_echo_eof && g_echo_n == g_echo_off) reply(ST_EOF, g_echo_total, NULL, 0);
+  else reply(moved ? ST_PROGRESS : ST_BLOCKED, g_echo_total, NULL, 0);
 }
 
 void vchild_run(int ctl, int image, char *const *argv, char *const *envp)
